@@ -321,6 +321,25 @@ pub fn block(name: &str, c: &AlphaCtx, out: &mut Vec<Op>) {
                 }
             }
         }
+        // three bulk removals that leave tombstones behind (even keys / old-table elements / main-table elements kept)
+        "rt3" => {
+            for code in [4u64, 2, 3] {
+                out.push(Op::arg(OpK::Retain, code));
+            }
+        }
+        // shrink_to with every small argument
+        "shr64" => {
+            for m in 0..=64u64 {
+                out.push(Op::arg(OpK::ShrinkTo, m));
+            }
+        }
+        // three reserve calls that start a resize of a table that is not full
+        "rsv3" => {
+            let cap = c.cap as u64;
+            for n in [cap - len + 1, cap + 1, 2 * cap + 4] {
+                out.push(Op::arg(OpK::Reserve, n));
+            }
+        }
         // a filter that spares / takes exactly one class representative, dropped or forgotten after every prefix
         "preddrop" => {
             let reps = c.classes.present_reps();
